@@ -861,11 +861,11 @@ fn main() {
     let mut hits = Hits::default();
     let mut w = CaseWriter::new(&args.out, "scen");
     corpus(&mut w, &mut dist, &mut hits, &mut rng);
-    let nspecial = args.budget(24, 1500);
+    let nspecial = args.budget(20, 1500);
     for _ in 0..nspecial {
         special_scen(&mut rng, &mut w, &mut dist, &mut hits);
     }
-    let nscen = args.budget(220, 12000);
+    let nscen = args.budget(190, 12000);
     for _ in 0..nscen {
         random_scen(&mut rng, &mut w, &mut dist, &mut hits, false);
     }
